@@ -1163,6 +1163,10 @@ func (c *Conn) writeRequest(ctx *Ctx) error {
 	c.queueReq(id, ctx)
 
 	if hasBody {
+		if verifOn {
+			vAccess(c, "streamWindow", "wl:nolock")
+		}
+
 		pb := &pendingBody{
 			ctx:    ctx,
 			window: c.streamWindow,
@@ -1276,6 +1280,10 @@ func (c *Conn) writeHeaderBlock(fr *FrameHeader, h *Headers) error {
 // in SETTINGS_INITIAL_WINDOW_SIZE.
 func (c *Conn) applyInitialWindow(size int32) {
 	c.sendLck.Lock()
+
+	if verifOn {
+		vAccess(c, "streamWindow", "rl:sendLck")
+	}
 
 	delta := size - c.streamWindow
 	c.streamWindow = size
